@@ -960,6 +960,13 @@ def knot_refinement(degree, knotvector, ctrlpts, **kwargs):
     return new_ctrlpts, new_kv
 
 
+def _map_coords(func, *pts):
+    """ Applies a function to the corresponding coordinates of points or of (nested) rows of points. """
+    if isinstance(pts[0][0], (list, tuple)):
+        return [_map_coords(func, *rows) for rows in zip(*pts)]
+    return [func(*coords) for coords in zip(*pts)]
+
+
 def degree_elevation(degree, ctrlpts, **kwargs):
     """ Computes the control points of the rational/non-rational spline after degree elevation.
 
@@ -989,7 +996,7 @@ def degree_elevation(degree, ctrlpts, **kwargs):
 
     # Initialize variables
     num_pts_elev = degree + 1 + num
-    pts_elev = [[0.0 for _ in range(len(ctrlpts[0]))] for _ in range(num_pts_elev)]
+    pts_elev = [_map_coords(lambda c: 0.0, ctrlpts[0]) for _ in range(num_pts_elev)]
 
     # Compute control points of degree-elevated 1-dimensional shape
     for i in range(0, num_pts_elev):
@@ -998,7 +1005,7 @@ def degree_elevation(degree, ctrlpts, **kwargs):
         for j in range(start, end + 1):
             coeff = linalg.binomial_coefficient(degree, j) * linalg.binomial_coefficient(num, (i - j))
             coeff /= linalg.binomial_coefficient((degree + num), i)
-            pts_elev[i] = [p1 + (coeff * p2) for p1, p2 in zip(pts_elev[i], ctrlpts[j])]
+            pts_elev[i] = _map_coords(lambda p1, p2: p1 + (coeff * p2), pts_elev[i], ctrlpts[j])
 
     # Return computed control points after degree elevation
     return pts_elev
@@ -1030,7 +1037,7 @@ def degree_reduction(degree, ctrlpts, **kwargs):
             raise GeomdlException("Input spline geometry must have degree > 1")
 
     # Initialize variables
-    pts_red = [[0.0 for _ in range(len(ctrlpts[0]))] for _ in range(degree)]
+    pts_red = [_map_coords(lambda c: 0.0, ctrlpts[0]) for _ in range(degree)]
 
     # Fix start and end control points
     pts_red[0] = ctrlpts[0]
@@ -1049,17 +1056,17 @@ def degree_reduction(degree, ctrlpts, **kwargs):
         r1 = r - 1 if p_is_odd else r
     for i in range(1, r1 + 1):
         alpha = float(i) / float(degree)
-        pts_red[i] = [(c1 - (alpha * c2)) / (1 - alpha) for c1, c2 in zip(ctrlpts[i], pts_red[i - 1])]
+        pts_red[i] = _map_coords(lambda c1, c2: (c1 - (alpha * c2)) / (1 - alpha), ctrlpts[i], pts_red[i - 1])
     for i in range(degree - 2, r, -1):
         alpha = float(i + 1) / float(degree)
-        pts_red[i] = [(c1 - ((1 - alpha) * c2)) / alpha for c1, c2 in zip(ctrlpts[i + 1], pts_red[i + 1])]
+        pts_red[i] = _map_coords(lambda c1, c2: (c1 - ((1 - alpha) * c2)) / alpha, ctrlpts[i + 1], pts_red[i + 1])
 
     if p_is_odd:
         alpha = float(r) / float(degree)
-        left = [(c1 - (alpha * c2)) / (1 - alpha) for c1, c2 in zip(ctrlpts[r], pts_red[r - 1])]
+        left = _map_coords(lambda c1, c2: (c1 - (alpha * c2)) / (1 - alpha), ctrlpts[r], pts_red[r - 1])
         alpha = float(r + 1) / float(degree)
-        right = [(c1 - ((1 - alpha) * c2)) / alpha for c1, c2 in zip(ctrlpts[r + 1], pts_red[r + 1])]
-        pts_red[r] = [0.5 * (pl + pr) for pl, pr in zip(left, right)]
+        right = _map_coords(lambda c1, c2: (c1 - ((1 - alpha) * c2)) / alpha, ctrlpts[r + 1], pts_red[r + 1])
+        pts_red[r] = _map_coords(lambda pl, pr: 0.5 * (pl + pr), left, right)
 
     # Return computed control points after degree reduction
     return pts_red
